@@ -181,9 +181,11 @@ class Norm(object):
 
     ERASE = ('int', 'float')
 
-    def __init__(self, env=None, fatoms=None):
+    def __init__(self, env=None, fatoms=None, erase=None):
         self.env = env or {}
         self.fatoms = fatoms if fatoms is not None else {}
+        if erase is not None:
+            self.ERASE = tuple(erase)
 
     def sym(self, name):
         v = self.env.get(name)
@@ -237,7 +239,7 @@ class Norm(object):
                     return r
                 return self.fatom('pow', [a, b])
             if isinstance(e.op, ast.FloorDiv):
-                return self.fatom('floor', [a / b])
+                return self.fatom('floordiv', [a / b])
             raise Unsupported(U(e))
         if isinstance(e, ast.Call):
             if e.keywords:
